@@ -48,7 +48,11 @@ def io_workload(rng, prop):
         wl = {'kind': kind, 'profile': 'w60', 'shape': 'star', 'seqs': seqs, 'type': gen.T_UNDEF, 'gpo': -1.0, 'gpe': -1.0, 'tgpe': -1.0}
         wl['names'] = gen.gen_names(rng, n)
     elif mode == 1 and rng.random() < 0.25:
-        wl = gen.gen_workload(rng, profile=rng.choice(['manylines', 'many', 'boundary']))
+        wl = gen.gen_workload(rng, profile=rng.choice(['manylines', 'many', 'boundary', 'seqcap']))
+        if wl['profile'] == 'seqcap':
+            # 1023-1025 rows AND more than one 60-column block: every member repeated to 60-130 residues
+            k = rng.randint(8, 14)
+            wl['seqs'] = [x * k for x in wl['seqs']]
     else:
         wl = gen.gen_workload(rng, weights=[15, 45, 25, 5, 2, 4, 4])
     n = len(wl['seqs'])
